@@ -1066,15 +1066,15 @@ class Terminal:
         if write:
             offset = self.pdo_out_off
             size = self.pdo_out_sz
-            start = 1
+            start = min(1, len(self.fmmu_used) - 1)
         else:
             offset = self.pdo_in_off
             size = self.pdo_in_sz
-            start = len(self.fmmu_used)
+            start = len(self.fmmu_used) - 1
         assert size is not None
         assert offset is not None
 
-        index = start - self.fmmu_used[start::-1].index(None) - 1
+        index = start - self.fmmu_used[start::-1].index(None)
 
         self.fmmu_used[index] = logical
         try:
